@@ -28,14 +28,69 @@ type userCall struct {
 	Call ssa.CallInstruction
 	Kind string // RunFn, ScenarioFn, cleanup
 	Fn   *ssa.Function
+	// Host is set when the user function is not called here but handed to a guarding helper (hostHelpers) that
+	// calls it behind its own recovering defer; Call is then the call of that helper.
+	Host *ssa.Defer
+}
+
+// hostHelpers: module functions that defer a recovering function and then call one of their function-typed
+// parameters (`func guard(t *T, fn func()) { defer CheckResults(t, nil); fn() }`). The map gives the parameter
+// index and the recovering defer.
+type hostHelper struct {
+	param int
+	rec   *ssa.Defer
+	call  ssa.CallInstruction
+}
+
+func hostHelpers(c *core.Ctx) map[*ssa.Function]hostHelper {
+	out := map[*ssa.Function]hostHelper{}
+	for _, h := range c.AllFuncs {
+		if !core.InModule(h) || h.Parent() != nil {
+			continue
+		}
+		for i, p := range h.Params {
+			sig, ok := p.Type().Underlying().(*types.Signature)
+			if !ok || sig.Params().Len() != 0 || sig.Results().Len() != 0 {
+				continue
+			}
+			for _, hc := range an.AllCalls(h) {
+				if an.Callee(hc) != nil || an.Strip(hc.Common().Value) != ssa.Value(p) {
+					continue
+				}
+				if _, plain := hc.(*ssa.Call); !plain {
+					continue
+				}
+				for _, d := range an.AllCalls(h) {
+					df, isDefer := d.(*ssa.Defer)
+					if !isDefer || !an.Dominates(df, hc) {
+						continue
+					}
+					if _, rok := recovering(an.Callee(df)); rok {
+						out[h] = hostHelper{param: i, rec: df, call: hc}
+					}
+				}
+			}
+		}
+	}
+	return out
 }
 
 // userCalls finds every dynamic call in module code of a value typed testing.RunFn / testing.ScenarioFn
 // and of elements of a []func() field of testing.T (the cleanup stack).
 func userCalls(c *core.Ctx) []userCall {
 	var out []userCall
+	hosts := hostHelpers(c)
 	for _, fn := range c.AllFuncs {
 		for _, call := range an.AllCalls(fn) {
+			// a cleanup handed to a guarding helper instead of being called in place
+			if h, ok := hosts[an.Callee(call)]; ok && h.param < len(call.Common().Args) {
+				if ia, isIA := an.Terminal(call.Common().Args[h.param]).(*ssa.IndexAddr); isIA {
+					if fld, owner := an.TerminalField(ia.X); fld != nil && an.IsNamed(owner, testingPkg, "T") {
+						out = append(out, userCall{Call: call, Kind: "cleanup", Fn: fn, Host: h.rec})
+						continue
+					}
+				}
+			}
 			if an.Callee(call) != nil || call.Common().IsInvoke() {
 				continue
 			}
@@ -45,15 +100,15 @@ func userCalls(c *core.Ctx) []userCall {
 			t := call.Common().Value.Type()
 			switch {
 			case an.IsNamed(t, testingPkg, "RunFn"):
-				out = append(out, userCall{call, "RunFn", fn})
+				out = append(out, userCall{Call: call, Kind: "RunFn", Fn: fn})
 			case an.IsNamed(t, testingPkg, "ScenarioFn"):
-				out = append(out, userCall{call, "ScenarioFn", fn})
+				out = append(out, userCall{Call: call, Kind: "ScenarioFn", Fn: fn})
 			default:
 				// element of a []func() field of testing.T
 				direct := false
 				if ia, ok := an.Terminal(call.Common().Value).(*ssa.IndexAddr); ok {
 					if fld, owner := an.TerminalField(ia.X); fld != nil && an.IsNamed(owner, testingPkg, "T") {
-						out = append(out, userCall{call, "cleanup", fn})
+						out = append(out, userCall{Call: call, Kind: "cleanup", Fn: fn})
 						direct = true
 					}
 				}
@@ -67,7 +122,7 @@ func userCalls(c *core.Ctx) []userCall {
 					if ia, isIA := an.Strip(v).(*ssa.IndexAddr); isIA && rv.F != nil && rv.F.Parent != nil {
 						base := (an.FV{V: ia.X, F: rv.F}).Resolve(nil).V
 						if fld, owner := an.TerminalField(base); fld != nil && an.IsNamed(owner, testingPkg, "T") {
-							out = append(out, userCall{call, "cleanup", fn})
+							out = append(out, userCall{Call: call, Kind: "cleanup", Fn: fn})
 						}
 					}
 				}
